@@ -461,7 +461,15 @@ func (c *conn) WriteTo(w io.Writer) (n int64, err error) {
 }
 
 func (c *conn) Flush() error {
-	return c.loop.write(c)
+	if err := c.loop.write(c); err != nil {
+		return err
+	}
+	// ReadFrom only buffers the data, in LT mode we need to monitor the writable
+	// events if the outbound buffer could not be flushed out completely.
+	if !c.loop.engine.opts.EdgeTriggeredIO && !c.outboundBuffer.IsEmpty() {
+		return c.loop.poller.ModReadWrite(&c.pollAttachment, false)
+	}
+	return nil
 }
 
 func (c *conn) InboundBuffered() int {
